@@ -302,6 +302,7 @@ type TLCOpts struct {
 	Workers  int
 	Tag      string
 	Simulate bool
+	retried bool
 	// StdoutFile: write TLC's output to this file instead of keeping it in memory (large dumps); Out then
 	// only holds the lines that are not dump lines
 	StdoutFile string
@@ -374,6 +375,16 @@ func (c *Ctx) TLC(o TLCOpts) (*TLCResult, error) {
 	}
 	start := time.Now()
 	err := cmd.Run()
+	if ee, ok := err.(*exec.ExitError); ok && ee.ExitCode() == -1 && ctx.Err() == nil && !o.retried {
+		// killed by a signal (typically the kernel's OOM killer when several JVMs run side by side): once more, alone
+		if outf != nil {
+			outf.Close()
+		}
+		os.RemoveAll(meta)
+		time.Sleep(30 * time.Second)
+		o.retried = true
+		return c.TLC(o)
+	}
 	if outf != nil {
 		outf.Close()
 		// keep TLC's own messages (everything that is not a dump line) for statistics and error reporting
